@@ -17,6 +17,7 @@ pub open spec fn row_status(t: TrackerRow) -> ConfirmationStatus { status_of(t.h
 
 impl DBM {
     // INSERT INTO trackers
+//@ transcribes teos/src/dbm.rs :: impl DBM :: fn store_tracker :: sha=998c88cb96636534
     #[verifier::external_body]
     pub fn store_tracker(&mut self, uuid: UUID, tracker: &TransactionTracker) -> (r: Result<(), DbError>)
         ensures
@@ -30,6 +31,7 @@ impl DBM {
             },
     { unimplemented!() }
     // UPDATE trackers SET height, confirmed WHERE UUID
+//@ transcribes teos/src/dbm.rs :: impl DBM :: fn update_tracker_status :: sha=167578f63fcc418e
     #[verifier::external_body]
     pub fn update_tracker_status(&mut self, uuid: UUID, status: &ConfirmationStatus) -> (r: Result<(), DbError>)
         ensures
@@ -41,6 +43,7 @@ impl DBM {
             },
     { unimplemented!() }
     // SELECT ... FROM trackers INNER JOIN appointments WHERE UUID
+//@ transcribes teos/src/dbm.rs :: impl DBM :: fn load_tracker :: sha=a99829b6c4a5dd3c
     #[verifier::external_body]
     pub fn load_tracker(&self, uuid: UUID) -> (r: Option<TransactionTracker>)
         ensures match r {
@@ -50,15 +53,18 @@ impl DBM {
             None => !(self.trackers.contains_key(uuid) && self.appts.contains_key(uuid)),
         },
     { unimplemented!() }
+//@ transcribes teos/src/dbm.rs :: impl DBM :: fn tracker_exists :: sha=eaa7a0521582ca13
     #[verifier::external_body]
     pub fn tracker_exists(&self, uuid: UUID) -> (r: bool)
         ensures r == self.trackers.contains_key(uuid),
     { unimplemented!() }
+//@ transcribes teos/src/dbm.rs :: impl DBM :: fn get_trackers_count :: sha=d999b7f5c6db3fa9
     #[verifier::external_body]
     pub fn get_trackers_count(&self) -> (r: usize)
         ensures r == self.trackers.len(),
     { unimplemented!() }
     // SELECT UUID FROM trackers WHERE confirmed=(?1) AND height (= | <=) (?2)
+//@ transcribes teos/src/dbm.rs :: impl DBM :: fn load_trackers_with_confirmation_status :: sha=9da6bb5ea9d29bde
     #[verifier::external_body]
     pub fn load_trackers_with_confirmation_status(&self, status: ConfirmationStatus) -> (r: Result<Vec<UUID>, DbError>)
         ensures match r {
@@ -70,6 +76,7 @@ impl DBM {
         },
     { unimplemented!() }
     // SELECT t.UUID, t.penalty_tx, t.height, t.confirmed FROM trackers INNER JOIN appointments
+//@ transcribes teos/src/dbm.rs :: impl DBM :: fn load_penalties_summaries :: sha=7363f08cd4bff504
     #[verifier::external_body]
     pub fn load_penalties_summaries(&self) -> (r: HashMap<UUID, PenaltySummary>)
         ensures
